@@ -320,10 +320,13 @@ func c04XPaths(kind string) []c04XPath {
 	if kind == "xml" {
 		paths = []string{"/a", "/a/b", "/*/b", "//b", "/a//b", "/a/*", "//*", "//a"}
 		preds = []string{"", "[.='1']", "[@k='1']", "[b]", "[b='2']", "[text()='1']", "[not(b)]", "[count(*)=2]", "[count(*)=0]", "[.='']",
-			"['x]'!='']", `[.!="'"]`, `[.='1' and .!="'"]`, "[not(@k)]", "[b/@k='1']", "[.//b='1']"}
+			"['x]'!='']", `[.!="'"]`, `[.='1' and .!="'"]`, "[not(@k)]", "[b/@k='1']", "[.//b='1']",
+			// several predicates on the final step (all about the candidate itself)
+			"[@k='1'][b]", "[@k='1'][.='1']", "[not(@k)][b='2']", "[@k='1'][not(b)]", "[@k][@k='1'][count(*)=0]", "[b][@k='1']", "[b][b='2']", "[.='1'][not(@k)]"}
 	} else {
 		paths = []string{"/a", "/a/b", "/*/b", "//b", "/a//b", "/a/*", "//*", "/*", "/*/*"}
-		preds = []string{"", "[.='1']", "[b]", "[b='1']", "[not(b)]", "[count(*)=2]", "[count(*)=0]", "[.='']", "['x]'!='']", `[.!="'"]`, `[.='1' and .!="'"]`, "[a='true']", "[.//b='1']"}
+		preds = []string{"", "[.='1']", "[b]", "[b='1']", "[not(b)]", "[count(*)=2]", "[count(*)=0]", "[.='']", "['x]'!='']", `[.!="'"]`, `[.='1' and .!="'"]`, "[a='true']", "[.//b='1']",
+			"[b][a]", "[b][b='1']", "[not(b)][.='1']", "[count(*)=2][a='true']"}
 	}
 	var out []c04XPath
 	for _, p := range paths {
